@@ -1051,6 +1051,15 @@ func (gg *ggraph) model(rt *rapid.T) *onnx.ModelProto {
 			g.Output = append(g.Output, valueInfoNoShape(v.name))
 		}
 	}
+	// a graph may also declare one of its inputs or initializers as an output (pass-through)
+	if rt != nil && gg.opts.allOutputs && !gg.opts.perSample && rapid.IntRange(0, 3).Draw(rt, "passThroughOutput") == 0 {
+		if rapid.Bool().Draw(rt, "passInput") || len(gg.inits) == 0 {
+			g.Output = append(g.Output, valueInfoNoShape(gg.inputs[0].name))
+		} else {
+			g.Output = append(g.Output, valueInfoNoShape(rapid.SampledFrom(gg.inits).Draw(rt, "passInit").Name))
+		}
+		gg.feat("pass-through-output")
+	}
 	return mkModel(g, 13)
 }
 
